@@ -553,6 +553,38 @@ static void do_ccprobe (const char *args)
   free (pb);
 }
 
+/* `edprobe`: for every byte value b the real telnet_neg() on "ab<b>c" and on "<b>c" (editing bytes), and the real
+ * add_console_line() on the blob "a<b>c" (bytes converted into the command terminator).  One line per byte:
+ *   e <b> <telnet_neg("ab<b>c")> <telnet_neg("<b>c")> <text after add_console_line("a<b>c")>
+ * props/c13.py derives NV.Gen.C13.tnEditBytes / consoleNulBytes from it (bridging lemma NV.C13.edit_bytes_tie). */
+static void do_edprobe (void)
+{
+  for (int b = 1; b < 256; b++)
+    {
+      char in1[8] = { 'a', 'b', (char) b, 'c', 0 }, in2[8] = { (char) b, 'c', 0 };
+      char *o1 = (char *) malloc (8), *o2 = (char *) malloc (8);
+      memset (o1, 0x5a, 8);
+      memset (o2, 0x5a, 8);
+      telnet_neg (o1, in1);
+      telnet_neg (o2, in2);
+      c13_ip->text_start = c13_ip->text_end = 0;
+      c13_ip->text[0] = 0;
+      c13_ip->iflags &= ~CMD_IN_BUF;
+      char blob[4] = { 'a', (char) b, 'c', 0 };
+      add_console_line (c13_ip, blob, 4);
+      char h1[32], h2[32], h3[32];
+      hex (h1, (unsigned char *) o1, strlen (o1));
+      hex (h2, (unsigned char *) o2, strlen (o2));
+      hex (h3, (unsigned char *) c13_ip->text, c13_ip->text_end <= 8 ? c13_ip->text_end : 8);
+      vh_out ("e %d %s %s %s", b, h1[0] ? h1 : "-", h2[0] ? h2 : "-", h3[0] ? h3 : "-");
+      free (o1);
+      free (o2);
+    }
+  c13_ip->text_start = c13_ip->text_end = 0;
+  c13_ip->text[0] = 0;
+  c13_ip->iflags &= ~CMD_IN_BUF;
+}
+
 static int c13_cmd (char *line)
 {
   if (!strncmp (line, "port ", 5))
@@ -584,6 +616,11 @@ static int c13_cmd (char *line)
   if (!alive ())		/* connection closed earlier: nothing is executed any more */
     return !strncmp (line, "getchar", 7) || !strncmp (line, "inputto", 7) || !strcmp (line, "serve") || !strcmp (line, "iflag single") || !strcmp (line, "iflag line") || !strcmp (line, "read") || !strncmp (line, "chunk ", 6)
       || !strcmp (line, "extract") || !strcmp (line, "drain") || !strcmp (line, "finish") || !strncmp (line, "line ", 5);
+  if (!strcmp (line, "edprobe"))
+    {
+      do_edprobe ();
+      return 1;
+    }
   if (!strncmp (line, "ccprobe ", 8))
     {
       do_ccprobe (line + 8);
